@@ -342,6 +342,16 @@ func registerBig(in *Interp) {
 	in.reg(b+"Mod", divLike("Mod"))
 	in.reg(b+"Quo", divLike("Quo"))
 	in.reg(b+"Rem", divLike("Rem"))
+	in.reg(b+"Lsh", func(th *Thread, fn *ssa.Function, a []Value) Value {
+		n := uint(th.concInt(a[2], "Lsh n"))
+		f := sym.IntConst(new(big.Int).Lsh(big.NewInt(1), n))
+		return setBig(th, a[0], bigOf(sym.IMul(bigArg(th, a[1]).Term(), f)))
+	})
+	in.reg(b+"Rsh", func(th *Thread, fn *ssa.Function, a []Value) Value {
+		n := uint(th.concInt(a[2], "Rsh n"))
+		f := sym.IntConst(new(big.Int).Lsh(big.NewInt(1), n))
+		return setBig(th, a[0], bigOf(sym.IDiv(bigArg(th, a[1]).Term(), f)))
+	})
 	in.reg(b+"Neg", func(th *Thread, fn *ssa.Function, a []Value) Value {
 		return setBig(th, a[0], bigOf(sym.INeg(bigArg(th, a[1]).Term())))
 	})
